@@ -1,6 +1,7 @@
 import HappyModel.Proto
 import HappyModel.C08.PolicySpec
 import HappyModel.C08.PipeDriver
+import HappyModel.C08.PipeWDriver
 import HappyModel.C08.IndusDriver
 /-! Line-protocol driver for C08 (other side: `hv/props/c08.py`). -/
 namespace HappyModel.C08.Driver
@@ -114,6 +115,8 @@ def handle (hdr : List String) (body : List String) : List String :=
   | "judge-policy" :: rest => judgePolicy rest body
   | "pipe" :: rest => Pipe.runPipe rest body
   | "judge-pipe" :: rest => Pipe.judgePipe rest body
+  | "pipew" :: rest => PipeW.runPipeW rest body
+  | "judge-pipew" :: rest => PipeW.judgePipeW rest body
   | "indus" :: rest => Indus.runIndus rest body
   | "judge-indus" :: rest => Indus.judgeIndus rest body
   | _ => ["bad-mode"]
